@@ -99,11 +99,9 @@ func (m MetavarMatcher) Match(got reflect.Value, d data.Data, r Region) (data.Da
 	// Not everything that go/ast calls an expression is one: an
 	// expression metavariable does not stand for the "key: value" of a
 	// composite literal or the "...T" of a variadic parameter.
-	if got.Kind() == reflect.Interface {
-		switch got.Elem().Interface().(type) {
-		case *ast.KeyValueExpr, *ast.Ellipsis:
-			return d, false
-		}
+	switch got.Interface().(type) {
+	case *ast.KeyValueExpr, *ast.Ellipsis:
+		return d, false
 	}
 
 	key := metavarKey(m.Name)
